@@ -8,7 +8,9 @@ TAGS = ['TIMESTAMP', 'MANIFEST', 'IGNORE', 'DATA', 'DIST', 'EBUILD', 'MISC', 'AU
 FILE_TAGS = ['MANIFEST', 'DATA', 'DIST', 'EBUILD', 'MISC', 'AUX']
 HOSTILE = (list(' \t\\/.-_aAfF09xuU') + ['\x00', '\x07', '\x1f', '\x7f', '\x80', '\x85', '\xa0', ' ', ' ',
            ' ', ' ', ' ', ' ', '　', '﻿', '￿', '\U00010000', '\U0010ffff',
-           'é', '٠', 'é', 'ß', '\x0b', '\x0c', '\x1c', '\x1d', '\x1e', '\r', '\n', '5', 'C', 'c', 'x20'])
+           'é', '٠', 'é', 'ß', '\x0b', '\x0c', '\x1c', '\x1d', '\x1e', '\r', '\n', '5', 'C', 'c', 'x20',
+           # text that Unicode normalisation would change: decomposed letters, compatibility characters, conjoining jamo
+           'e\u0301', '\u0301', 'A\u030a', '\u2126', '\u212b', '\uf900', '\u037e', '\u1100\u1161', '\ufb01', '\u00c5'])
 HASHNAMES = ['MD5', 'SHA1', 'SHA256', 'SHA512', 'RMD160', 'WHIRLPOOL', 'BLAKE2B', 'BLAKE2S', 'SHA3_256',
              'SHA3_512', 'FOO', 'md5', '__size__', 'x', 'é']
 
